@@ -10,6 +10,8 @@ type StackN<const N: usize, const S: usize> = any_vec::mem::StackN<N, S>;
 
 #[cfg(feature = "lib_alloc")]
 anyvec_pbt::configs! {
+    Tr16_EmptyA:   Tr16,   any_vec::mem::Empty, dyn Cloneable, G_ALIGN;
+    Tr64_StackA:   Tr64,   Stack<192>,      dyn Cloneable, G_ALIGN;
     Tr0a16_Multi: Tr0a16, Multi, dyn Cloneable, G_LAYOUT;
     Tr16_Multi:   Tr16,   Multi, dyn Cloneable, G_LAYOUT | G_FAULT;
     Pl3_Multi:    Pl3,    Multi, dyn Cloneable, G_LAYOUT;
@@ -22,6 +24,8 @@ anyvec_pbt::configs! {
 
 #[cfg(not(feature = "lib_alloc"))]
 anyvec_pbt::configs! {
+    Tr16_EmptyA:   Tr16,   any_vec::mem::Empty, dyn Cloneable, G_ALIGN;
+    Tr64_StackA:   Tr64,   Stack<192>,      dyn Cloneable, G_ALIGN;
     Tr24_Stack:   Tr24,   Stack<100>,     dyn Cloneable, G_BACKEND | G_STACK;
     Pl3_StackN:   Pl3,    StackN<5, 16>,  dyn Cloneable, G_BACKEND | G_STACK;
 }
